@@ -1013,6 +1013,13 @@ pub fn end() -> EndState {
         }
     }
     shared().cv.notify_all();
+    // the bytes on the wire are part of the run's identity (replay / determinism comparison)
+    if let Some(env) = &net.env {
+        for (i, e) in net.eps.iter().enumerate() {
+            let h = simcore::fnv1a(&e.sent);
+            env.with(|x| x.obs.ev("wire", i as u64, h));
+        }
+    }
     EndState {
         needs_restart: leaked || net.exit_seen,
         eps: net.eps,
